@@ -481,7 +481,12 @@ impl Report {
         });
         let dir = Path::new(VERIF_DIR).join("evidence");
         let _ = std::fs::create_dir_all(&dir);
-        let path = dir.join(format!("{}.json", self.id));
+        // a replay of one case must not overwrite the evidence of the last real run
+        let path = if self.opts.replay.is_some() {
+            Path::new(VERIF_DIR).join("target").join(format!("replay-evidence-{}.json", self.id))
+        } else {
+            dir.join(format!("{}.json", self.id))
+        };
         if let Err(err) = std::fs::write(
             &path,
             serde_json::to_vec_pretty(&evidence).unwrap_or_default(),
